@@ -324,3 +324,49 @@ def gen_odd_cap(rng, opts=None):
     scn['script'] = script
     scn['start_i'], scn['end_i'] = 1, nd - 2
     return scn
+
+
+def gen_bust(rng, opts=None):
+    """A futures account that is wiped out: one position opened on the first day, cash chosen so that on a later day the account's value is on
+    opposite sides of zero at the day's close and at its settlement price (or below zero at both) - forced liquidation on and off, both
+    settlement-price modes."""
+    wopts = dict(ndays=rng.randint(8, 12), actions=False, expiry=False)
+    scn = gen_trading(rng, dict(freq='1d', stocks=0, futures=True, flows=False, world=wopts, actions_per_phase=(0,), p_cancel=0.0))
+    w = W.gen_world(random.Random(scn['world_seed']), scn['world_opts'])
+    fid = 'RB2010'
+    bars = w.future_bars[fid]
+    mult = w.instruments[fid]['mult']
+    n = rng.choice([50, 100, 200])
+    long_side = rng.random() < 0.5
+    sgn = 1 if long_side else -1
+    p1 = bars[1]['close']
+    pnl_c = [sgn * (b['close'] - p1) * n * mult for b in bars]
+    pnl_s = [sgn * (b['settlement'] - p1) * n * mult for b in bars]
+    notional = p1 * n * mult
+    cash0 = None
+    ks = list(range(2, len(bars) - 1))
+    rng.shuffle(ks)
+    for k in ks:
+        lo, hi = min(pnl_c[k], pnl_s[k]), max(pnl_c[k], pnl_s[k])
+        if hi >= 0:
+            continue
+        t = (lo + hi) / 2.0 if lo != hi and rng.random() < 0.8 else hi + 1.0       # straddle (value > 0 at one price, < 0 at the other) or bust at both
+        if all(min(pnl_c[j], pnl_s[j]) > t for j in range(2, k)) and -t >= 0.0105 * notional:
+            cash0 = float(int(-t))
+            break
+    if cash0 is None:
+        cash0 = float(int(0.02 * notional))
+    sim = scn['cfg']['mod']['sys_simulation']
+    sim.update(volume_limit=False, price_limit=False, inactive_limit=False, slippage=0, matching_type='current_bar')
+    scn['cfg']['base'].update(accounts={'future': cash0}, margin_multiplier=0.1, forced_liquidation=rng.random() < 0.85)
+    scn['cfg']['mod']['sys_transaction_cost']['futures_commission_multiplier'] = 0
+    scn['cfg']['mod']['sys_accounts']['futures_settlement_price_type'] = rng.choice(['settlement', 'settlement', 'close'])
+    scn['universe'] = [fid]
+    scn['meta'] = dict(active_stocks=[], futs=[fid])
+    script = {'1|handle_bar|0': [dict(op='buy_open' if long_side else 'sell_open', id=fid, amt=n, style='mkt')]}
+    for d in range(2, len(w.days) - 1):
+        if rng.random() < 0.3:
+            script['%d|handle_bar|0' % d] = [dict(op='position', id=fid, dir='LONG' if long_side else 'SHORT')]
+    scn['script'] = script
+    scn['start_i'], scn['end_i'] = 1, len(w.days) - 2
+    return scn
